@@ -128,6 +128,9 @@ class Interposer(object):
             os._exit(77)
         self.log.append([name] + [a if isinstance(a, (int, str)) else repr(a) for a in args])
         e = self.faults.get(k)
+        per = self.faults.get('persist')
+        if e is None and per is not None and k >= per[0] and name in ('write', 'flush', 'fsync', 'close'):
+            e = per[1]          # the condition (disk full, file-size limit) does not go away
         if e is not None:
             self.injected.append((k, name, e))
             self.log[-1].append('FAULT:%s' % errno.errorcode.get(e, e))
@@ -205,7 +208,7 @@ def prepare_dir(scn, d):
         if scn['dest'] == 'present':
             with open(dest, 'wb') as f:
                 f.write(OLD)
-            os.chmod(dest, 0o664)
+            os.chmod(dest, scn.get('dest_mode', 0o664))
         if scn['part'] == 'present':
             with open(part, 'wb') as f:
                 f.write(FOREIGN)
@@ -305,6 +308,36 @@ def run_crash_child(fu, scn, d, crash_before):
     _, st = os.waitpid(pid, 0)
     code = os.waitstatus_to_exitcode(st)
     status = {77: 'crashed', 0: 'completed', 3: 'raised'}.get(code, 'child-error-%s' % code)
+    return status, snapshot(d, dest, part), before
+
+
+def run_limited_child(fu, scn, d, fsize_limit):
+    """Fork; the child lowers RLIMIT_FSIZE (the kernel then refuses to grow any file beyond the limit: a
+    persistent EFBIG with real kernel semantics, buffers included) and performs the save with the real os
+    module.  Returns (status, snapshot_after, before): status 'completed' | 'raised'."""
+    import resource
+    dest, part = prepare_dir(scn, d)
+    before = snapshot(d, dest, part)
+    sys.stdout.flush()
+    sys.stderr.flush()
+    pid = os.fork()
+    if pid == 0:
+        code = 70
+        try:
+            import signal
+            signal.signal(signal.SIGXFSZ, signal.SIG_IGN)
+            os.umask(scn.get('umask', 0o022))
+            resource.setrlimit(resource.RLIMIT_FSIZE, (fsize_limit, fsize_limit))
+            try:
+                do_save(fu, scn, dest)
+                code = 0
+            except BaseException:   # noqa
+                code = 3
+        finally:
+            os._exit(code)
+    _, st = os.waitpid(pid, 0)
+    code = os.waitstatus_to_exitcode(st)
+    status = {0: 'completed', 3: 'raised'}.get(code, 'child-error-%s' % code)
     return status, snapshot(d, dest, part), before
 
 
